@@ -1,12 +1,16 @@
 import Ptn.C03.Core
 import Ptn.C03.Tree
 import Ptn.C03.Value
+import Ptn.C03.CentreNorm
 /-! Property theorems for C03.  `Core.lean`: gauge machine for arbitrary distance tables + the
 Mathlib instances.  `Tree.lean`: `canon_gauge_tree` — for every well-formed tree and every centre
 the hypotheses of `canon_gauge` hold for the distance table of the C17 model, so every non-centre
 node ends recorded as pointing to the first hop of its path to the centre.  `Value.lean`: the value-level
 theorems (state unchanged by every run of `canonOps` / `moveOps` given the per-call QR contracts; norm from
-the centre tensor alone).  This file only adds the non-vacuity examples of the value-level theorems. -/
+the centre tensor alone).  `Iso.lean` / `CanonTree.lean` / `CentreNorm.lean`: the gauge record MEANS the index-form
+isometry (`run_isometric`, `canonical_form_isometric_tree`), a tree-shaped network of isometries toward the parents is
+canonical (`tree_canon`, `centre_canon_of_tree`, `centre_norm_of_tree`), and `canonical_form_centre_norm`.  This file
+only adds the non-vacuity examples of the value-level theorems. -/
 namespace Ptn.C03
 
 open Ptn.Ein
@@ -114,5 +118,119 @@ example : (∀ τ : Asg Nat, τ 1 < demoDim 1 → τ 3 < demoDim 1 →
         rcases hf with rfl | rfl
         · exact hC
         · exact hCc) hpp (by omega) (by omega) rfl rfl
+
+/-! ### the full QR contract on a concrete network: `Q` an isometry toward the fresh bond
+
+two nodes `0 — 1` as in `demoNet`; the tensor of node 0 is `2 · δ(σ0, σ1)` (zero outside the range), its QR
+factors are `Q = δ(σ0, q)` and `R = 2 · δ(r, σ1)`. -/
+
+def isoNet : VNet Int where
+  ids := [0, 1]
+  legs := fun k => if k = 0 then [0, 1] else if k = 1 then [2, 3] else []
+  tens := fun k σ => if k = 0 then (if σ 0 = σ 1 ∧ σ 0 < 2 then 2 else 0) else (σ 2 : Int) + 3 * (σ 3 : Int) + 1
+  bonds := [(1, 2)]
+  next := 4
+
+theorem isoNet_wf : isoNet.WF := by
+  refine ⟨by decide, ?_, ?_, ?_, by decide, ?_, ?_⟩
+  · intro n hn
+    simp only [isoNet, List.mem_cons, List.not_mem_nil, or_false] at hn
+    rcases hn with rfl | rfl <;> simp [isoNet]
+  · intro n hn m hm l h1 h2
+    simp only [isoNet, List.mem_cons, List.not_mem_nil, or_false] at hn hm
+    rcases hn with rfl | rfl <;> rcases hm with rfl | rfl <;> simp [isoNet] at h1 h2 <;> omega
+  · intro n hn
+    simp only [isoNet, List.mem_cons, List.not_mem_nil, or_false] at hn
+    rcases hn with rfl | rfl
+    · intro σ τ h
+      have h0 := h 0 (by simp [isoNet]); have h1 := h 1 (by simp [isoNet])
+      simp [isoNet, h0, h1]
+    · intro σ τ h
+      have h2 := h 2 (by simp [isoNet]); have h3 := h 3 (by simp [isoNet])
+      simp [isoNet, h2, h3]
+  · intro p hp
+    simp only [isoNet, List.mem_cons, List.not_mem_nil, or_false] at hp
+    subst hp
+    exact ⟨⟨0, by simp [isoNet], by simp [isoNet]⟩, ⟨1, by simp [isoNet], by simp [isoNet]⟩⟩
+  · intro n hn l hl
+    simp only [isoNet, List.mem_cons, List.not_mem_nil, or_false] at hn
+    rcases hn with rfl | rfl <;> simp [isoNet] at hl ⊢ <;> omega
+
+/-- the QR factorisation of the tensor of node 0 over the fresh bond `(4, 5)` -/
+def isoFact : QRFact demoDim (isoNet.tens 0) (isoNet.legs 0) 1 isoNet.next (isoNet.next + 1) where
+  Q := fun ρ => if ρ 0 = ρ 4 then 1 else 0
+  Rm := fun ρ => if ρ 5 = ρ 1 then 2 else 0
+  exact := by
+    intro τ
+    simp only [isoNet, demoDim, sumPairs, sumR, upd, List.range_succ, List.range_zero]
+    by_cases h0 : τ 0 = 0 <;> by_cases h1 : τ 0 = 1 <;> by_cases h2 : τ 1 = 0 <;> by_cases h3 : τ 1 = 1 <;>
+      (simp [h0, h1, h2, h3]; try omega)
+  readsQ := by
+    intro σ τ h
+    have h0 := h 0 (by simp [isoNet]); have h4 := h 4 (by simp [isoNet])
+    simp [h0, h4]
+  readsR := by
+    intro σ τ h
+    have h5 := h 5 (by simp [isoNet]); have h1 := h 1 (by simp)
+    simp [h5, h1]
+
+/-- the second half of the contract: `Q` is an isometry toward the fresh bond -/
+theorem isoFact_iso : IsoToward demoDim id isoFact.Q (isoNet.next :: (isoNet.legs 0).erase 1) isoNet.next := by
+  intro τ h1 h2
+  simp only [demoDim, isoNet] at h1 h2
+  have e1 : τ (DL.ket 4) = 0 ∨ τ (DL.ket 4) = 1 := by omega
+  have e2 : τ (DL.bra 4) = 0 ∨ τ (DL.bra 4) = 1 := by omega
+  rcases e1 with e1 | e1 <;> rcases e2 with e2 | e2 <;>
+    simp [isoNet, isoFact, ketT, braT, dbl, ddim, demoDim, sumPairs, sumR, upd, List.range_succ, e1, e2]
+
+/-- the network after the move `0 → 1` -/
+def isoNet' : VNet Int := gaugeStep demoDim isoNet 0 1 (1, 2) 1 2 isoFact
+
+theorem isoNet_run : IsoRun demoDim id isoNet [⟨0, 1⟩] isoNet' :=
+  IsoRun.cons (IsoStep.mk isoNet 0 1 (1, 2) 1 2 (by simp [isoNet]) (by simp [isoNet]) (by decide)
+    ⟨by simp [isoNet], Or.inl rfl, by simp [isoNet], by simp [isoNet]⟩ isoFact isoFact_iso rfl) (IsoRun.nil _)
+
+/-- the premises of `run_isometric` are satisfiable (an `IsoRun` exists on a well-formed network; the empty
+record is true of it), and the conclusion is not vacuous: the record names node 1 for node 0 -/
+example : isoNet.WF ∧ IsoRun demoDim id isoNet [⟨0, 1⟩] isoNet' ∧ GaugeInv demoDim id isoNet (fun _ => none) ∧
+    applyOps (fun _ => none) [⟨0, 1⟩] 0 = some 1 :=
+  ⟨isoNet_wf, isoNet_run, gaugeInv_none _ _ _, by decide⟩
+
+open Ptn.C17 Ptn.C17.RTree in
+/-- the premises of `canonical_form_isometric_tree` / `canonical_form_centre_norm` are satisfiable: the tree
+`0 → 1` (root 0) canonicalised at the NON-root node 1 (so the tree is re-rooted), on `isoNet`; the run of the
+model's operation list exists -/
+example :
+    let t : RTree := .node 0 [.node 1 []]
+    t.WF ∧ 1 ∈ ids t ∧ isoNet.WF ∧ (∀ n ∈ ids t, n ∈ isoNet.ids) ∧ BondDims demoDim isoNet ∧
+    distanceToNode t 1 = some [(1, 0), (0, 1)] ∧ (reroot 1 [] t).map edges = some [(1, 0)] ∧
+    canonOps [(1, 0), (0, 1)] (nbrsOf t) = [⟨0, 1⟩] ∧
+    IsoRun demoDim id isoNet (canonOps [(1, 0), (0, 1)] (nbrsOf t)) isoNet' := by
+  refine ⟨by decide, by decide, isoNet_wf, by decide, ?_, by decide, by decide, by decide, ?_⟩
+  · intro p hp
+    simp only [isoNet, List.mem_cons, List.not_mem_nil, or_false] at hp
+    subst hp; rfl
+  · have : canonOps [(1, 0), (0, 1)] (nbrsOf (.node 0 [.node 1 []])) = [⟨0, 1⟩] := by decide
+    rw [this]; exact isoNet_run
+
+open Ptn.C17 Ptn.C17.RTree in
+/-- the per-edge premise `EdgeOK` of `tree_canon` / `centre_canon_of_tree` / `centre_norm_of_tree` is satisfiable:
+the network after the move, the tree rooted at the centre 1, bond ends `up 0 = 4`, `dn 0 = 5` -/
+example :
+    let r : RTree := .node 1 [.node 0 []]
+    isoNet'.WF ∧ (ids r).Nodup ∧ (∀ n ∈ ids r, n ∈ isoNet'.ids) ∧
+    ∀ e ∈ edges r, EdgeOK demoDim id isoNet' (fun _ => 4) (fun _ => 5) e.1 e.2 := by
+  refine ⟨step_wf demoDim isoNet_wf (by cases isoNet_run with | cons hs hr => cases hr; exact hs.step),
+    by decide, by decide, ?_⟩
+  intro e he
+  have : e = (1, 0) := by simpa [edges, edgesL, rid] using he
+  subst this
+  refine ⟨by simp [isoNet', gaugeStep, isoNet], by simp [isoNet', gaugeStep, isoNet], ⟨(4, 5), ?_⟩, rfl, ?_⟩
+  · exact ⟨by simp [isoNet', gaugeStep, isoNet], Or.inl rfl, by simp [isoNet', gaugeStep, isoNet],
+      by simp [isoNet', gaugeStep, isoNet]⟩
+  · have e1 : isoNet'.tens 0 = isoFact.Q := by simp [isoNet', gaugeStep]
+    have e2 : isoNet'.legs 0 = isoNet.next :: (isoNet.legs 0).erase 1 := by simp [isoNet', gaugeStep]
+    rw [e1, e2]
+    exact isoFact_iso
 
 end Ptn.C03
